@@ -14,7 +14,7 @@ ASSUMPTIONS = [
     "HTTP/3 reverse-proxy requests (h3_backward_compatibility) are not driven (no QUIC transport in the harness)",
 ]
 RULE = ("channels: ping host, speedtest host, reverse-proxy host, tunnel host with routing by markers/paths; HTTP/1.1 and HTTP/2; with and without a configured "
-        "authenticator (no credentials sent); GET /Nmb.bin for N in {0, 1, 2, 3, 100(thorough), 101, 1000, +1, 01, 1.5, -1, empty}, other suffixes and methods; POST /upload.html "
+        "authenticator (no credentials sent); GET /Nmb.bin for N in {0, 1, 2, 3, 100(thorough), 101, 1000, +1, 01, 1.5, -1, empty, and sizes that a wrap in 8/16/32 bits would bring back into range: 257, 65537, 4097, 4196, 8193, 4194305}, other suffixes and methods; POST /upload.html "
         "with Content-Length in {absent, 0, 1, 1000, 70000, 120 MiB (thorough), 120 MiB + 1, 2^32, text}; /speed/ prefix on tunnel hosts with speedtest enabled/disabled; "
         "downloads that take longer than the handler timeout (slow reader, 100-200 ms timeout); reverse proxy with loopback origin x private connections allowed/refused, path mask on the tunnel host with/without Upgrade; slow-reading client; "
         "non-trivial = every case; distinct = distinct request")
@@ -56,7 +56,9 @@ def gen_cases(rng, ctx):
             add(base(0), 6, "/speed/1mb.bin", hs=[("sec-fetch-mode", "navigate")], expect=(200, 0), name="ping:navigate-marker-wins")
             # speedtest download
             for n, ok in (("1", 1), ("2", 2), ("3", 3), ("0", None), ("101", None), ("1000", None), ("+1", 1), ("01", 1), ("1.5", None), ("-1", None), ("", None),
-                          ("4294967297", None)):
+                          ("4294967297", None),
+                          # sizes that come back into 1..100 if the size, or the size in KiB / bytes, wraps in 8, 16 or 32 bits
+                          ("257", None), ("65537", None), ("4097", None), ("4196", None), ("8193", None), ("4194305", None)):
                 add(base(2), 6, "/%smb.bin" % n, expect=(200, ok * MIB) if ok else (400, 0), name="speedtest:download-%s" % (n or "empty"))
             add(base(2, delay=3), 6, "/2mb.bin", expect=(200, 2 * MIB), name="speedtest:download-slow-reader")
             add(base(2, delay=20) + [200], 6, "/3mb.bin", expect=(200, 3 * MIB), name="speedtest:download-slower-than-the-handler-timeout")
@@ -67,9 +69,10 @@ def gen_cases(rng, ctx):
             add(base(0, st=1), 6, "/speed/1mb.bin", expect=(200, MIB), name="speedtest:on-tunnel-host")
             # speedtest upload
             for cl, send, ok in (("1", 1, True), ("1000", 1000, True), ("70000", 70000, True), ("0", 0, False), (None, 0, False),
-                                 (str(120 * MIB + 1), 0, False), ("4294967296", 0, False), ("ten", 0, False)):
-                if cl == "ten" and http2:
-                    continue      # the HTTP/2 library itself refuses a non-numeric content-length
+                                 (str(120 * MIB + 1), 0, False), ("4294967296", 0, False), ("ten", 0, False),
+                                 ("4294968296", 0, False), ("18446744073709551617", 0, False)):
+                if cl in ("ten", "18446744073709551617") and http2:
+                    continue      # the HTTP/2 library itself refuses a content-length that is not a 64-bit number
                 hs = [("content-length", cl)] if cl is not None else []
                 add(base(2), 7, "/upload.html", hs=hs, body=send, expect=(200, 0) if ok else (400, 0), name="speedtest:upload-%s" % cl)
             add(base(2), 7, "/upload.htm", hs=[("content-length", "5")], body=0, expect=(400, 0), name="speedtest:upload-bad-path")
